@@ -911,11 +911,11 @@ def run(ctx):
     ctx.assume("pandas DataFrame / groupby / explode / concat and networkx DiGraph behave as documented")
     ctx.assume("rustworkx dfs_search calls tree_edge before the child is discovered and finish_vertex after all descendants are finished")
     ctx.assume("the tree's index->name map and its data dictionary are kept in step (C07)")
-    rule_N1(ctx)
-    rule_N2(ctx)
-    rule_N3_N4(ctx)
-    rule_N5(ctx)
-    rule_N6(ctx)
+    ctx.soft(rule_N1)
+    ctx.soft(rule_N2)
+    ctx.soft(rule_N3_N4)
+    ctx.soft(rule_N5)
+    ctx.soft(rule_N6)
     # the ccf / clonal_prev columns are the MAP assignment's: its traceback and output formulas (C10.X4, X5)
     from . import C10
 
